@@ -41,11 +41,28 @@ fn gen_case(r: &mut Rng, i: u64, big: bool, check: bool) -> (W2Input, LzOpts, Op
     let (lc, lp, pb) = *r.pick(&[(3u32, 0u32, 2u32), (0, 0, 0), (4, 0, 4), (0, 4, 2), (1, 3, 1), (2, 2, 3), (0, 0, 4)]);
     let mut lz = LzOpts { dict, lc, lp, pb, normal: false, nice, bt4, depth, preset: None };
     let mut chunk = None;
-    let stratum = i % 10;
+    // (`W2_ONLY=<k>` restricts an own validation run to one stratum)
+    let stratum = std::env::var("W2_ONLY").ok().and_then(|s| s.parse::<u64>().ok()).unwrap_or(i % 10);
     let inp = match stratum {
         0 => {
-            let n = r.range(0, 6) as usize;
-            W2Input::plain("tiny", r.bytes(n))
+            if r.chance(1, 3) {
+                let n = r.range(0, 6) as usize;
+                W2Input::plain("tiny", r.bytes(n))
+            } else {
+                // around the store-or-compress boundary `compressed_size + 2 < uncompressed_size`: short inputs whose
+                // compressed size is within a few bytes of their length
+                let n = r.range(6, 90) as usize;
+                let k = *r.pick(&["lowent", "text", "runs", "periodic"]);
+                let mut v = gen_data(r, k, n);
+                let m = r.below(12) as usize;
+                v.extend(r.bytes(m));
+                // the shortest prefix the real writer compresses instead of storing, and the two lengths below it
+                let first_lzma = (6..=v.len()).find(|&l| matches!(lzma2_compress(&v[..l], &lz, None, &[l], 0), Outcome::Ok(c) if c.first().map(|b| *b >= 0x80).unwrap_or(false)));
+                if let Some(l) = first_lzma {
+                    v.truncate(l - r.below(3) as usize);
+                }
+                W2Input::plain("tiny", v)
+            }
         }
         1 => {
             let n = r.range(6, 3000) as usize;
@@ -54,6 +71,14 @@ fn gen_case(r: &mut Rng, i: u64, big: bool, check: bool) -> (W2Input, LzOpts, Op
         }
         2 => {
             // incompressible: every chunk is stored; 1 .. several chunks
+            if (check && i % 80 == 2) || (!check && r.chance(1, 3)) {
+                // random data longer than a 1 MiB dictionary: 3-byte matches are frequent (dict / 2^24 per position),
+                // so stored chunks end while the finder is one byte ahead (`LZMAEncoder::reset` adds `read_ahead + 1`)
+                lz.dict = 1 << 20;
+                lz.bt4 = false;
+                let n = r.range(1_100_000, 1_500_000) as usize;
+                return (W2Input::plain("random-ahead", incompressible(r, n)), lz, None);
+            }
             let n = if big { r.range(60_000, 400_000) } else if check { r.range(1000, 80_000) } else { r.range(1000, 140_000) } as usize;
             W2Input::plain("random", incompressible(r, n))
         }
